@@ -198,11 +198,72 @@ def gen_cases(ctx):
     return cases
 
 
+def end_to_end(ctx):
+    """`vsb upload` itself against the emulated providers, listing pages of one or two entries: after a clean run
+    the cloud holds every local backup of the window, a second run transfers nothing, and objects that were there are
+    untouched; groups beyond the window are deleted as whole groups only."""
+    import random
+    from props import upload_common as uc
+    from vlib import store, hist
+    stats = {'runs': 0, 'second_run_transfers': 0}
+    provs = uc.PROVIDERS if ctx.tier == 'thorough' else [uc.PROVIDERS[ctx.seed % 3], uc.PROVIDERS[(ctx.seed + 1) % 3]]
+    for idx, prov in enumerate(provs):
+        for page in ([1] if ctx.tier == 'quick' else [1, 2, 7]):
+            rng = random.Random(ctx.seed * 31 + idx * 7 + page)
+            e = uc.E2E(ctx, 700 + idx * 10 + page, prov, 'sync pass', nbackups=2, file_sizes=(10, 3000), stage_options=['--page-size', str(page)])
+            try:
+                # more history: a second and third group (the emulator's namespace and the local storage grow day by day)
+                for day in range(2):
+                    e.w.write(os.path.join(e.w.items[0], 'day%d' % day), 80 + day, 500)
+                    e.w.max_groups = 3
+                    r = e.w.backup(advance=hist.DAY)
+                    assert r.rc == 0, r.errors()
+                store.write_config(e.cfg, 'b', e.w.root, [{'path': e.w.items[0]}], 3, 3,
+                                   upload={'provider': {'name': uc.PROVIDER_CFG[prov], 'client_id': 'id', 'client_secret': 'secret', 'refresh_token': 'refresh'},
+                                           'path': e.CLOUD_ROOT, 'max_backup_groups': 2, 'encryption_passphrase': e.passphrase})
+                # something foreign and something old in the cloud beforehand
+                ns = e.stage.emu.namespace(prov)
+                ns.mkdir(e.CLOUD_ROOT + '/1999.01.01')
+                ns.put_file(e.CLOUD_ROOT + '/1999.01.01/1999.01.01-00:00:00.tar.gpg', b'an old cloud backup')
+                uc.emu.pe.save_namespace(e.stage.dir, ns)
+                e.stage.emu.reload()
+                o1 = e.upload()
+                case = {'provider': prov, 'page_size': page}
+                stats['runs'] += 1
+                if o1['run'].errors():
+                    ctx.violation('property', 'vsb upload reports errors without any fault [%s, page size %d]: %s' % (prov, page, o1['run'].errors()[:2]), {'case': case})
+                    continue
+                local = {}
+                for g in sorted(os.listdir(e.w.root)):
+                    local[g] = sorted(b for b in os.listdir(os.path.join(e.w.root, g)) if store.BACKUP_RE.match(b))
+                window = sorted(g for g in local if local[g])[-2:]
+                cloud = o1['cloud']
+                for g in window:
+                    for b in local[g]:
+                        if '%s/%s.tar.gpg' % (g, b) not in cloud:
+                            ctx.violation('property', 'after a clean upload the cloud lacks %s/%s of the retention window [%s, page size %d]' % (g, b, prov, page), {'case': case})
+                if any(k.startswith('1999.01.01/') for k in cloud):
+                    ctx.violation('property', 'the cloud group 1999.01.01, older than the window, was not deleted by a clean run [%s, page size %d]' % (prov, page), {'case': case})
+                for g in local:
+                    if g not in window and any(k.startswith(g + '/') for k in cloud):
+                        ctx.violation('property', 'a backup of group %s outside the retention window was uploaded [%s]' % (g, prov), {'case': case})
+                o2 = e.upload()
+                transfers = [q['endpoint'] for q in o2['requests'] if q.get('upload') and q['endpoint'] not in ('list', 'list-folder')]
+                deletes = [q['endpoint'] for q in o2['requests'] if q['endpoint'] == 'delete']
+                if transfers or deletes or o2['cloud'] != cloud:
+                    stats['second_run_transfers'] += 1
+                    ctx.violation('property', 'a second vsb upload run still transfers or deletes (%s) or changes objects that were present [%s, listing page size %d]'
+                                  % ((transfers + deletes)[:4], prov, page), {'case': case})
+            finally:
+                e.close()
+    return stats
+
+
 def check(ctx):
     aud = core.audit(ctx.prop)
     core.report_audit(ctx, aud)
     core.proof_coverage(ctx, aud)
-    bindir, err = core.build_impl(ctx, need_vsb=False)
+    bindir, err = core.build_impl(ctx)
     if bindir is None:
         ctx.violation('runtime', 'repository does not build: ' + err[-400:], {}, found_input=False)
         return
@@ -231,7 +292,7 @@ def check(ctx):
         'rule': 'pairs (local groups, cloud groups) over a universe of group/backup names, each group absent/empty/non-empty on each side, '
                 'max_backup_groups 1..4, incoming ok flag, fault on any planned provider action; non-trivial = at least three group entries in total',
         'samples': [cases[0], cases[len(cases) // 3], cases[-1]],
-        'correspondence': st,
+        'correspondence': st, 'end_to_end': end_to_end(ctx),
         'disagreements_checked': st['cases'],
         'exhaustive': ctx.tier == 'thorough',
         'explanation': 'thorough: all assignments of {absent,empty,{b0},{b0,b1}} x {absent,empty,{b0},{b1},{b0,b1}} to 3 group names x max 1..3 x (no fault | fault at each planned action | ok=false), plus random states over 6 names',
